@@ -1,4 +1,4 @@
-\* quick 1/4: one client with every feature (2 messages, ping, heartbeat, chat-style replies, external sender), pool of 2, repaired pool (Dev = {}): every property incl. the liveness ShutdownEndsRun
+\* quick: one client, pool of 2, heartbeat on, echo replies, external broadcast; repaired pool (Dev = {}): every invariant and the liveness ShutdownEndsRun
 CONSTANTS
   c1 = c1
   c2 = c2
@@ -7,16 +7,17 @@ CONSTANTS
   w2 = w2
   w3 = w3
   Clients <- CS1
-  MaxMsgs = 2
-  MaxPings = 1
+  MaxMsgs = 1
+  MaxPings = 0
   Workers <- WS2
   Heartbeat = TRUE
-  Reply <- ReplyChat
-  ExtScript <- ExtBoth
+  Reply <- ReplyUni
+  ExtScript <- ExtBc
   Mode = "free"
   ShutdownMode = "any"
   Dev = {}
 SPECIFICATION Spec
+VIEW MCView
 INVARIANTS TypeOK CurInStreams DispatchInvs InvocationInvs DeliveryInvs QuiescentComplete
 PROPERTY ShutdownEndsRun
 CHECK_DEADLOCK FALSE
